@@ -97,6 +97,29 @@ type Outcome struct {
 	Msg     *refwire.Msg // reply message (R-kind), or nil
 	ErrText string       // if Msg == nil: the error text
 	Plain   bool         // return errors.New(text) instead of MessageRerror{text}
+	// ErrKind selects special error values a handler may legitimately return
+	// ("" = per Plain): "canceled" / "deadline" = the context package's own
+	// errors (e.g. from the handler's internal timeout, the request not being
+	// flushed), "wrap9p" = a 9P error wrapped with fmt.Errorf("%s: %w").
+	// In every case the reply must carry the error's full text.
+	ErrKind string
+}
+
+// ErrorOf builds the error value described by o and the text its reply must carry.
+func ErrorOf(o Outcome) (error, string) {
+	switch o.ErrKind {
+	case "canceled":
+		return context.Canceled, context.Canceled.Error()
+	case "deadline":
+		return context.DeadlineExceeded, context.DeadlineExceeded.Error()
+	case "wrap9p":
+		err := fmt.Errorf("%s: %w", o.ErrText, p9p.MessageRerror{Ename: "file not found"})
+		return err, err.Error()
+	}
+	if o.Plain {
+		return errors.New(o.ErrText), o.ErrText
+	}
+	return p9p.MessageRerror{Ename: o.ErrText}, o.ErrText
 }
 
 type Invocation struct {
@@ -156,10 +179,8 @@ func (h *Handler) Handle(ctx context.Context, msg p9p.Message) (p9p.Message, err
 	if out.Msg != nil {
 		return gen.ToMessage(out.Msg, 0), nil
 	}
-	if out.Plain {
-		return nil, errors.New(out.ErrText)
-	}
-	return nil, p9p.MessageRerror{Ename: out.ErrText}
+	err, _ = ErrorOf(out)
+	return nil, err
 }
 
 func (h *Handler) Stop(err error) error {
